@@ -98,6 +98,45 @@ const HAND: [&str; 30] = [
     "a.b.c:d(1)(2)[3]'s'{4} = 5",
 ];
 
+/// one statement around a literal built from raw pieces: text, every escape form, `\z` followed by blanks (a piece whose
+/// value is empty), line continuations and - in interpolated strings - holes before, between and after them
+fn raw_literal_source(r: &mut crate::rng::Rng) -> String {
+    const PIECES: [&str; 16] = ["a", " ", "x=", "\\z  ", "\\z\n\t", "\\z", "\\n", "\\u{41}", "\\065", "\\x41", "\\\\", "\\\"", "\\'", "\\\n", "%", "\\z \\z "];
+    const HOLES: [&str; 6] = ["{x}", "{ y }", "{1}", "{f()}", "{`n{z}`}", "{ {1} }"];
+    let interp = r.chance(2, 3);
+    let mut lit = String::new();
+    let n = 1 + r.below(5);
+    if interp {
+        lit.push('`');
+        for _ in 0..n {
+            if r.bool() {
+                lit.push_str(*r.pick(&HOLES));
+            } else {
+                let p = *r.pick(&PIECES);
+                lit.push_str(if p == "\\'" { "'" } else { p });
+            }
+        }
+        if r.chance(1, 3) {
+            lit.push_str("\\{");
+        }
+        lit.push('`');
+    } else {
+        let q = if r.bool() { '"' } else { '\'' };
+        lit.push(q);
+        for _ in 0..n {
+            lit.push_str(*r.pick(&PIECES));
+        }
+        lit.push(q);
+    }
+    let tail = *r.pick(&["", "\n", " -- c\n", " --[[c]]", ";"]);
+    match r.below(4) {
+        0 => format!("local s = {}{}", lit, tail),
+        1 => format!("return {}{}", lit, tail),
+        2 => format!("f({}, {}){}", lit, lit, tail),
+        _ => format!("local t = {{ {} }}{}\nreturn t", lit, tail),
+    }
+}
+
 impl Monitor for C03 {
     fn id(&self) -> &'static str {
         "C03"
@@ -136,6 +175,11 @@ impl Monitor for C03 {
             if let Some(s) = inject_trivia(&it.text, &mut r, &o) {
                 return Some(json!({"origin": format!("corpus+trivia:{}", it.name), "src": s}));
             }
+        }
+        if r.chance(1, 12) {
+            // raw string / interpolated-string literals assembled from escape pieces (the generated programs print their
+            // strings from values, which never produces `\z`, line continuations or empty-valued pieces)
+            return Some(json!({"origin": "raw-literal", "src": raw_literal_source(&mut r)}));
         }
         let luau = r.bool();
         let types = luau && r.bool();
